@@ -214,3 +214,85 @@ Qed.
 Lemma c06_reactions_never_fail : forall c es,
   free_of [602] (c06_check c (combine es (map obs_of (run_trace es (init_sess c))))) = true.
 Proof. intros c es. unfold c06_check. apply (c06_scan_reaction es (init_sess c)). apply init_boundary. Qed.
+
+Lemma passes_hdr_ok : forall c tgt m, msg_passes_header c tgt m = true -> hdr_ok c m.
+Proof.
+  intros c tgt m H. unfold msg_passes_header, header_defect in H. unfold hdr_ok, hdr_compid_ok, hdr_time_ok.
+  destruct (hdr_begin_ok c m); cbn [negb] in H; [|discriminate].
+  destruct (mi_sender m) as [sd|]; [|discriminate]. destruct (mi_target m) as [tg|]; [|discriminate].
+  destruct tg as [|t0 tg]; [discriminate|]. destruct sd as [|s0 sd]; [discriminate|]. cbn [length Nat.eqb] in H.
+  destruct (beq_bytes (c_sender c) (t0 :: tg) && beq_bytes (c_target c) (s0 :: sd)); cbn [negb] in H; [|discriminate].
+  split; [reflexivity|]. split; [reflexivity|]. split.
+  - destruct (c_skip_latency c); [reflexivity|]. cbn [orb].
+    destruct (mi_stime m) as [| |d]; try discriminate.
+    destruct (Z.leb_spec (c_max_latency c) d); cbn [orb] in H; [discriminate|].
+    destruct (Z.leb_spec d (- c_max_latency c)); [discriminate|].
+    apply andb_true_iff. split; apply Z.ltb_lt; lia.
+  - split; intros x Hx; inversion Hx; discriminate.
+Qed.
+
+(* ---------- C04 clause 401 at trace level: a gap in normal operation ---------- *)
+Lemma gap_step : forall s m n,
+  s_st s = SInSession -> s_out_open s = true -> s_to_send s = [] ->
+  gated_type (mi_type m) = true -> msg_passes_header (s_cfg s) (s_tgt s) m = true -> mi_seq m = FVal n -> s_tgt s < n ->
+  let o := obs_of (step s (EIncoming m)) in
+  (match resend_requests (ob_wire o) with [rq] => rr_is rq (s_tgt s) (end_marker (s_cfg s) (s_tgt s) n) | _ => false end) = true
+  /\ ob_tgt o = s_tgt s
+  /\ match ob_st o with ShResend _ keys _ re => existsb (Z.eqb n) keys && (re =? n - 1) | _ => false end = true.
+Proof.
+  intros s m n Hst Ho Hq Hg Hp Hseq Hn.
+  set (c := clear_logs s).
+  assert (Hl : is_logged_on (s_st c) = true) by (change (s_st c) with (s_st s); rewrite Hst; reflexivity).
+  assert (Hnr : forall a b d, unwrap_pending (s_st c) <> SResend a b d) by (intros a b d; change (s_st c) with (s_st s); rewrite Hst; discriminate).
+  pose proof (passes_hdr_ok _ _ _ Hp) as Hh.
+  assert (Hv : verify c m = (c, Some (RTooHigh n (s_tgt c)))).
+  { apply (verify_select_too_high c m true true n); [exact Hh | exact Hseq | exact Hn]. }
+  rewrite (step_incoming_in_session s m Hst). fold c. rewrite (gated_failed_verify c m _ Hg Hv).
+  destruct (gap_detected_not_recovering c m n Hl Hnr Ho Hq) as (W1 & W2 & _ & _ & W5).
+  destruct (process_reject c m (RTooHigh n (s_tgt c))) as [s1 next]. cbn [fst snd] in W1, W2, W5. subst next.
+  match goal with |- context [set_state s1 ?nx] => rewrite (set_state_connected s1 nx eq_refl) end.
+  cbn [obs_of ob_wire ob_tgt ob_st upd_st s_wire s_tgt s_st shape_of map fst]. rewrite W1, W2.
+  change (s_wire c) with (@nil omsg). cbn [rev app].
+  split; [|split; [reflexivity|]].
+  - match goal with |- context [resend_requests [?h]] => replace (resend_requests [h]) with [h] by reflexivity end.
+    unfold rr_is. cbn [o_body]. replace (field_of 7 _) with (Some (itoa (s_tgt c))) by reflexivity.
+    replace (field_of 16 _) with (Some (itoa (end_marker (s_cfg c) (s_tgt c) n))) by reflexivity.
+    cbn [opt_beq]. rewrite !beq_bytes_refl. reflexivity.
+  - cbn [existsb]. rewrite !Z.eqb_refl. reflexivity.
+Qed.
+
+Lemma shape_in_session st : shape_of st = ShInSession -> st = SInSession.
+Proof. destruct st; cbn; intros H; try discriminate; reflexivity. Qed.
+
+Lemma c04_scan_gap : forall es s i kept, Boundary s ->
+  free_of [401] (c04_scan (s_cfg s) i kept (obs_of s) (combine es (map obs_of (run_trace es s)))) = true.
+Proof.
+  induction es as [|e r IH]; intros s i kept Hb; cbn [run_trace map combine]; [reflexivity|].
+  cbn [c04_scan]. rewrite !free_of_app. repeat (apply andb_true_iff; split).
+  - destruct e as [| | |m| | | | | | |]; try reflexivity.
+    destruct (mi_seq m) as [| |n] eqn:Eseq; try reflexivity.
+    match goal with |- free_of _ (if ?x then _ else _) = true => destruct x eqn:Ec; [|reflexivity] end.
+    change (ob_st (obs_of s)) with (shape_of (s_st s)).
+    destruct (shape_of (s_st s)) eqn:Esh; try reflexivity.
+    pose proof (shape_in_session _ Esh) as Hst.
+    repeat (apply andb_true_iff in Ec as [Ec ?]).
+    change (ob_tgt (obs_of s)) with (s_tgt s) in *.
+    assert (Hq : s_to_send s = []) by (apply len0; assumption).
+    assert (Ho : s_out_open s = true).
+    { destruct Hb as [B1 _]. rewrite Hst in B1. exact (proj1 (B1 eq_refl)). }
+    assert (Hn : s_tgt s < n) by (apply Z.ltb_lt; assumption).
+    destruct (gap_step s m n Hst Ho Hq) as (G1 & G2 & G3); try assumption.
+    rewrite G1, G2, G3, Z.eqb_refl. reflexivity.
+  - free_rest.
+  - free_rest.
+  - free_rest.
+  - free_rest.
+  - rewrite <- (step_cfg (s_cfg s) s e eq_refl). apply IH. apply step_boundary; exact Hb.
+Qed.
+
+(* C04, trace level: on every trace of the model a message above the expected number, arriving in normal operation with
+   nothing queued or buffered, is answered by exactly one ResendRequest [expected, end marker], is kept under its number, and
+   leaves the expected number unchanged *)
+Lemma c04_gap_never_fails : forall c es,
+  free_of [401] (c04_check c (combine es (map obs_of (run_trace es (init_sess c))))) = true.
+Proof. intros c es. unfold c04_check. apply (c04_scan_gap es (init_sess c)). apply init_boundary. Qed.
